@@ -15,6 +15,9 @@ Constructor folds with omitted arguments + ``init`` path summaries + R6 freshnes
      field initialisation is on by default;
  (d) values stored are fresh / immutable / user-supplied (shared with C13, rule R6).
 That pack() of the result is the encoding of those values is C02 / C05.
+
+Round 4: (C19-prototype-snapshot) as_prototype takes a new snapshot per request;
+(C19-defaults-copied-whole) no field-wise copy protocol on Packet.
 """
 import ast
 
